@@ -26,8 +26,11 @@ for pid in all_ids:
         na.append({"property_id": pid, "reason": p.get("na_reason", "contract designed (DESIGN.md §5) but not yet discharged; not claimed")})
 m = {
     "version": 1,
-    "setup_cmd": "cd /verif && CARGO_NET_OFFLINE=true cargo build --release --offline --manifest-path tools/vx/Cargo.toml" + props.get("setup_extra", {}).get("cmd", ""),
-    "hooks": props.get("hooks", {"guard": "feature verif (none added yet)", "enable": "no hook is needed by the Verus checks: they read source text", "baseline_off_cmd": "cd /repo && cargo test --workspace --no-fail-fast --offline", "source_commits": [], "add_only": True}),
+    "setup_cmd": "cd /verif && sh run/setup.sh",
+    "hooks": {"guard": "cargo feature `verif` of circomspect-parser (parser/Cargo.toml [features] verif = [])",
+              "enable": "tools/replay/parser depends on circomspect-parser with features = [\"verif\"] (path dependency on /repo/parser); the Verus checks need no hook, they read source text",
+              "baseline_off_cmd": "cd /repo && cargo test --workspace --no-fail-fast --offline",
+              "source_commits": ["91d3267"], "add_only": True},
     "engines": [{"name": "verus-contracts", "path": "/verif/run/check.py", "serves_properties": [c["property_id"] for c in checks],
                  "kind_free_text": "Verus 0.2026.09.13 on functions extracted mechanically from /repo on every run (tools/vx), contracts in units/*/contracts.vc"}],
     "checks": checks,
